@@ -31,19 +31,47 @@ RULE = (
 )
 ASSUMPTIONS = [
     "cirq.unitary(op) of each returned operation is trusted (C03/C04); composition is done by vf.ref.linalg",
-    "reconstruction tolerance 10*atol (floor 1e-7); two_qubit state preparation 1e-6 (routine works in complex64 internally)",
-    "gate-count oracle is only an equality when all readings of the tolerance (atol/100, atol, 100*atol) give the same class; "
-    "otherwise any of those classes is accepted (near-tolerance perturbations may legitimately flip a count)",
-    "three_qubit_matrix_to_operations / quantum_shannon_decomposition two-qubit gate bounds (20; 3/20/100 for n=2/3/4) are "
-    "the counts of the paper cited in the docstrings (Shende et al.), also asserted by the repository's own tests",
+    "reconstruction tolerance 10*atol (floor 1e-7) where the routine has an atol; 1e-7 for routines without one "
+    "(4-FSim, cphase->2 FSim, three-qubit, multi-controlled, Clifford 1e-8), 1e-6 for quantum_shannon_decomposition (its "
+    "docstring disclaims eig accuracy; upstream tests use 1e-6), two-qubit state preparation (complex64 internally) and "
+    "Sycamore synthesis (16-digit precomputed constants)",
+    "gate counts: every individual tolerance test of the classification may read the tolerance anywhere in "
+    "[atol/100, 100*atol]; a count is asserted only when all readings agree, otherwise any of them is accepted",
+    "num_cnots_required / extract_right_diag are judged by the trace invariants of Shende et al. that their docstrings cite "
+    "(re-implemented on the class vector), not by the linear class of the coordinates",
+    "two-qubit gate bounds for three_qubit_matrix_to_operations (23) and quantum_shannon_decomposition (3/23/115 for "
+    "n=2/3/4) are the paper's counts (20; 3/20/100) plus one CZ per later block when diagonal extraction (A.2) finds "
+    "nothing to extract; the docstrings state no number, the tighter paper bound is only recorded as a label",
     "the Weyl-chamber class of non-constructed matrices comes from vf.ref.c15ref.weyl_from_matrix (numpy eigvals), "
-    "cross-checked against the constructed class on every constructed input",
+    "cross-checked against the constructed class on every constructed input (harness error if they disagree)",
+    "two_qubit_gate_product_tabulation gets a drawn integer seed as random_state (its only source of randomness)",
 ]
 SENSITIVITY = [
-    "kak_canonicalize_vector skips x<0 negate", "kak_vector drops pi/4-face z flip", "cz cleanup merge loses pending order",
-    "sqrt-iSWAP 2-gate region inequality", "QSD multiplexor angle not halved", "multi-controlled rotation half power sign",
-    "three-qubit A.1 CZ merge phase", "so4_to_magic_su2s wrong side", "axis_angle canonicalize sign", "state prep alpha",
-    "sycamore cphase rz angle", "clifford decomposition Sdg", "4-fsim b-gate sign", "bidiagonalize det fix",
+    "kak_canonicalize_vector skips x<0 negate",
+    "kak_vector drops pi/4-face z flip",
+    "num_cnots_required CNOT-class test wrong constant",
+    "extract_right_diag angle sign",
+    "so4_to_magic_su2s conjugates with the wrong side",
+    "axis_angle canonicalize prefers negative axes",
+    "bidiagonalize det fix flips a column instead of a row",
+    "pauli rotations half-turn absorbs Z with wrong sign",
+    "cz cleanup merges single-qubit gates in reversed order",
+    "cz synthesis treats y as negligible below 1e-3",
+    "MS synthesis interaction sign",
+    "sqrt-iSWAP 2-gate region ignores sign of z",
+    "sqrt-iSWAP inv variant drops trailing Z",
+    "4-fsim B-gate construction z sign",
+    "cphase->2 fsim drops eta shift for negative delta",
+    "three-qubit A.1 CZ merge phases wrong wire",
+    "QSD multiplexor angle not halved per select qubit",
+    "QSD global phase fix sign",
+    "multi-controlled rotation inverse half power sign",
+    "multi-controlled X Lemma 7.2 uses wrong borrowed qubit",
+    "sqrt-iSWAP state preparation angle",
+    "Clifford synthesis records S for S^-1 inverted",
+    "sycamore: ISWAP**t accepted as ISWAP",
+    "sycamore: rzz picks wrong branch near theta=0",
+    "sycamore: swap+zz inner rzz angle sign",
 ]
 
 
@@ -1309,6 +1337,15 @@ KNOWN_FEATURES = {
     "C15_state_prep_isclose_product": _f_state_prep_near_product,
     "C15_fsim4_face_threshold": _f_fsim4_face_threshold,
 }
+
+def uncovered():
+    return [
+        "two_qubit_gate_product_tabulation is only exercised in the thorough tier (seconds per tabulation)",
+        "n-qubit routines are exercised up to n = 4 (QSD) / 8 wires (multi-controlled X); larger n only by structure",
+        "inputs that trigger the listed KNOWN_FEATURES are skipped while those findings are open",
+        "gate-count minimality is asserted against the class of the input only outside the near-tolerance band",
+    ]
+
 
 # ----------------------------------------------------------------------------- registry
 
